@@ -442,7 +442,8 @@ class Color(NamedTuple):
                 raise ColorParseError(
                     f"color components must be <= 255 in {original_color!r}"
                 )
-            return cls(color, ColorType.TRUECOLOR, triplet=triplet)
+            # the name is what a style prints: no blanks, so that it parses as one word
+            return cls("".join(color.split()), ColorType.TRUECOLOR, triplet=triplet)
 
     @lru_cache(maxsize=1024)
     def get_ansi_codes(self, foreground: bool = True) -> Tuple[str, ...]:
